@@ -85,14 +85,15 @@ Lemma g6_step_w : forall c s i ch s' l,
 Proof.
   intros c s i ch s' l HI1 HI2 HI3 HG H Ht. unfold step_w in H.
   destruct (getw s i) as [pc|] eqn:Hg; [|discriminate]. unfold getw in Hg.
-  assert (Hsc : w_sc pc = false) by (destruct (i1_w _ HI1 _ _ Hg) as (_ & _ & Hx); exact Hx).
+  assert (Hscx : w_scx pc = true -> closed s = true) by (destruct (i1_w _ HI1 _ _ Hg) as (_ & _ & Hx); exact Hx).
   assert (Hlen : (i < length (ws s))%nat) by (apply nth_error_Some; congruence).
   pose proof (i3_c3 _ HI3) as Hc3.
   assert (Hk : forall (f : wpc -> bool) q, existsb f (ws s) = true -> f pc = false \/ f q = true ->
                                            existsb f (upd i q (ws s)) = true)
     by (intros; eapply existsb_upd_keep; eauto).
   unfold G6 in HG.
-  step_cases H; free_hyps; simpl in Hsc; try discriminate Hsc.
+  step_cases H; free_hyps; simpl in Hscx.
+  all: simpl in Ht; try discriminate Ht.
   all: unfold setw, hw_exit in *.
   all: repeat match goal with |- context [if ?b then _ else _] => destruct b eqn:? end.
   all: repeat match goal with |- context [match ?b with SWr _ => _ | SEnd => _ end] => destruct b eqn:? end.
@@ -120,6 +121,8 @@ Proof.
     eapply existsb_upd_keep; [exact Hg' | apply (existsb_add_task_mono act_cwf s HI2 eq_refl Hex) | left; reflexivity].
   - (* service() ends with connected = False: handle_close is under way *)
     destruct (Hc3 eq_refl) as [Hx'|Hl]; [congruence|].
+    right; left. destruct (io s); simpl in Hl; try discriminate; reflexivity.
+  - destruct (Hc3 eq_refl) as [Hx'|Hl]; [congruence|].
     right; left. destruct (io s); simpl in Hl; try discriminate; reflexivity.
 Qed.
 
